@@ -52,17 +52,19 @@ func addEmptyLines(lines []memLine) []memLine {
 
 func block2Lines(block interval.Interval[model.Addr]) []memLine {
 	begin := block.Begin() / bytesPerLine * bytesPerLine
-	end := (block.End() + bytesPerLine - 1) / bytesPerLine * bytesPerLine
+	// Address of the last line is used instead of an exclusive end address
+	// as the end address overflows for the last line of the address space.
+	last := (block.End() - 1) / bytesPerLine * bytesPerLine
 
-	lines := make([]memLine, 0, (end-begin)/bytesPerLine)
-	for i := begin; i < end; i += bytesPerLine {
+	lines := make([]memLine, 0, (last-begin)/bytesPerLine+1)
+	for i := begin; ; i += bytesPerLine {
 		b := i
 		if b < block.Begin() {
 			b = block.Begin()
 		}
 
 		e := i + bytesPerLine
-		if e > block.End() {
+		if e > block.End() || e < i {
 			e = block.End()
 		}
 
@@ -70,6 +72,10 @@ func block2Lines(block interval.Interval[model.Addr]) []memLine {
 			addr:   b / bytesPerLine * bytesPerLine,
 			ranges: []interval.Interval[model.Addr]{interval.New(b, e)},
 		})
+
+		if i == last {
+			break
+		}
 	}
 
 	return lines
